@@ -98,7 +98,7 @@ def generate(seed, tier="quick"):
     return {"prop": PROPERTY, "shape": shape, "ops": ops, "N": N, "dt": o.choice(DTS), "feed": mode, "stims": stims, "clamp": clamp,
             "solver": o.choice(["bwd_euler", "bwd_euler", "crank_nicolson"]),
             "vsolver": o.choice(["jaxley.stone", "jaxley.thomas", "jax.sparse"]),
-            "ref_ckpt": _ckpt(o, N), "manual": o.random() < 0.5, "splits": splits, "pseed": o.randrange(1 << 30), "use_params": o.random() < 0.8}
+            "ref_ckpt": _ckpt(o, N), "manual": o.random() < 0.5, "splits": splits, "pseed": o.randrange(1 << 30), "use_params": o.random() < 0.8, "manual_plain": o.random() < 0.3}
 
 
 # --------------------------------------------------------------------------------------------- execution helpers
@@ -308,6 +308,39 @@ def execute(program):
             if not simrun.close(full[mask], man[mask]):
                 w.violate("manual_steps_equal", f"manual stepping differs from integrate by {simrun.maxdiff(full[mask], man[mask]):.3e}", nidx)
 
+    # ---- manual stepping as a plain Python loop: un-jitted step_fn, one externals dict object reused for every step
+    #      (constant currents), compared with integrate of the same constant inputs
+    if program.get("manual_plain") and feed.mode == "data" and feed.stims and feed.clamp is None:
+        Nc = min(N, 6)
+        const = copy.copy(feed)
+        const.stims = [(t, np.full(N, arr[0])) for t, arr in feed.stims]
+        try:
+            kwc = dict(base_kw, ckpt=None, mode="eager", all_states=None, return_states=False)
+            kwc.update(const.kwargs(w.m, 0, Nc))
+            ref_c = simrun.integrate(w.m, **kwc)
+            with quiet():
+                w.m.to_jax()
+                init_fn, step_fn = build_init_and_step_fn(w.m, voltage_solver=base_kw["vsolver"], solver=base_kw["solver"])
+                st_, pr_ = init_fn(base_kw.get("params") or [], None, None, dt)
+                ext_, inds_ = const.step_externals(0)
+                rows_ = [[state_entry(ref, st_, idx, s_) if s_ in st_ else float("nan") for idx, s_ in ref.recordings]]
+                for _k in range(Nc):
+                    st_ = step_fn(st_, pr_, ext_, inds_, dt)  # same dict objects on every step
+                    rows_.append([state_entry(ref, st_, idx, s_) if s_ in st_ else float("nan") for idx, s_ in ref.recordings])
+            man_c = np.asarray(rows_, dtype=float).T
+        except HarnessError:
+            raise
+        except Exception as e:  # noqa: BLE001
+            if exc_in_harness(e):
+                raise HarnessError(f"manual plain: {type(e).__name__}: {e}") from e
+            man_c = None
+            w.violate("manual_steps_equal", f"plain-Python stepping with build_init_and_step_fn raised {exc_text(e)}", nidx)
+        if man_c is not None:
+            w.bump("oracle_manual_plain")
+            if not simrun.close(ref_c[mask], man_c[mask]):
+                w.violate("manual_steps_equal", f"un-jitted manual stepping with one reused externals dict differs from integrate by {simrun.maxdiff(ref_c[mask], man_c[mask]):.3e}", nidx,
+                          {"manual_plain": True})
+
     # ---- restarts
     for si, sp in enumerate(program["splits"]):
         if [v for v in w.violations if not _is_f6(v)]:
@@ -473,7 +506,7 @@ def manual_steps(w, feed, base_kw, N, dt):
 
 
 def simplify(program):
-    for field, simple in (("solver", "bwd_euler"), ("dt", 0.025), ("manual", False), ("ref_ckpt", None), ("clamp", None), ("vsolver", "jax.sparse"), ("use_params", False)):
+    for field, simple in (("solver", "bwd_euler"), ("dt", 0.025), ("manual", False), ("ref_ckpt", None), ("clamp", None), ("vsolver", "jax.sparse"), ("use_params", False), ("manual_plain", False)):
         if program.get(field) != simple:
             q = copy.deepcopy(program)
             q[field] = simple
